@@ -1130,6 +1130,13 @@ func runPlugins(args []string) error {
 				vecs = append(vecs, []string{pool, sz})
 			}
 		}
+		// valid range configurations (four arguments): small pools of sizes around the bitmap's word size are run into
+		// exhaustion by the battery (every request comes from another hardware address)
+		for _, rg := range [][2]string{{"10.0.0.200", "10.0.0.202"}, {"10.0.0.1", "10.0.0.2"}, {"192.168.0.250", "192.168.1.5"}, {"255.255.255.250", "255.255.255.255"}} {
+			for _, lt := range []string{"30s", "0s", "1h"} {
+				vecs = append(vecs, []string{filepath.Join(*dir, fmt.Sprintf("range-%d.sqlite", len(vecs))), rg[0], rg[1], lt})
+			}
+		}
 		if *arity >= 3 {
 			r := rand.New(rand.NewSource(*seed))
 			for i := 0; i < 4000; i++ {
